@@ -61,8 +61,8 @@ func newWiretap(target string) (*wiretap, error) {
 				dst.Close()
 				src.Close()
 			}
-			go pipe(c, s, w.c2s)
-			go pipe(s, c, w.s2c)
+			go pipe(c, s, w.s2c) // what the server sends
+			go pipe(s, c, w.c2s) // what the client sends
 		}
 	}()
 	return w, nil
@@ -92,7 +92,7 @@ type c13Stream struct{}
 func (c13Stream) Name() string               { return "c13" }
 func (c13Stream) CaseTimeout() time.Duration { return 60 * time.Second }
 func (c13Stream) Rule() string {
-	return "K sessions in parallel (1..8) through a recording TCP forwarder: a conforming client first issues 0..3 plain requests, then sends StartTLS, the handler waits D1 ms before its reply and D2 ms between the reply and Request.StartTLS (0..40 ms each, occasionally 1.3 s), the client starts its handshake the moment the reply arrives (so its ClientHello is in the socket while the handler is still running), then issues N requests inside the tunnel (in three cases of seven with DNs of 1.3 to 40 KB, which span several TLS records and must reach the handler whole), sequentially or pipelined, occasionally after 6 s (rarely 11 s) of silence; optionally with all clients waiting for every StartTLS reply before any handshake, with Stop called while the tunnels are busy, or (for the race detector only) with a slow request still in flight when StartTLS is served; oracle: the handshake succeeds, every request in the tunnel is answered correctly and numbered after the StartTLS request, and every byte the server sent after the StartTLS reply parses as TLS records; trace replayed through the connection automaton; non-trivial = D1 + D2 > 0 or pipelined requests, distinct by scenario"
+	return "K sessions in parallel (1..8) through a recording TCP forwarder: a conforming client first issues 0..3 plain requests, then sends StartTLS, the handler waits D1 ms before its reply and D2 ms between the reply and Request.StartTLS (0..40 ms each, occasionally 1.3 s), the client starts its handshake the moment the reply arrives (so its ClientHello is in the socket while the handler is still running), then issues N requests inside the tunnel (in three cases of seven with DNs of 1.3 to 40 KB, which span several TLS records and must reach the handler whole), sequentially or pipelined, occasionally after 6 s (rarely 11 s) of silence; optionally with all clients waiting for every StartTLS reply before any handshake, with Stop called while the tunnels are busy, or (for the race detector only) with a slow request still in flight when StartTLS is served; every third scenario serves the StartTLS operation through the default route (no route of its own), every fourth quiet one keeps an earlier request's handler blocked until a request inside the tunnel has reached its handler; oracle: the handshake succeeds, every request in the tunnel is answered correctly and numbered after the StartTLS request, and every byte the server sent after the StartTLS reply parses as TLS records; trace replayed through the connection automaton; non-trivial = D1 + D2 > 0 or pipelined requests, distinct by scenario"
 }
 
 func (c13Stream) Generate(rng *rand.Rand, n int, thorough bool) []Case {
@@ -123,8 +123,17 @@ func (c13Stream) Generate(rng *rand.Rand, n int, thorough bool) []Case {
 		}
 		// requests inside the tunnel with DNs of this many bytes (0: short ones): large requests span several TLS records
 		big := []int{0, 0, 0, 0, 1337, 5000, 40000}[rng.Intn(7)]
-		cs = append(cs, Case{Line: fmt.Sprintf("c13 sessions=%d pre=%d before=%d after=%d post=%d pipelined=%d idle=%d barrier=%d stop=%d overlap=%d linger=%d big=%d", []int{1, 2, 4, 8}[rng.Intn(4)],
-			[]int{0, 0, 1, 3}[rng.Intn(4)], before, after, 1+rng.Intn(6), rng.Intn(2), idle, barrier, stop, overlap, linger, big), Kind: "starttls"})
+		// the StartTLS operation served by the mux's default route instead of a route of its own (every third scenario);
+		// a request whose handler blocks until a request INSIDE the tunnel has reached its handler (every fourth, quiet ones only)
+		viadefault, blocked := 0, 0
+		if rng.Intn(3) == 0 {
+			viadefault = 1
+		}
+		if rng.Intn(4) == 0 && idle == 0 && stop == 0 && overlap == 0 {
+			blocked = 1
+		}
+		cs = append(cs, Case{Line: fmt.Sprintf("c13 sessions=%d pre=%d before=%d after=%d post=%d pipelined=%d idle=%d barrier=%d stop=%d overlap=%d linger=%d big=%d viadefault=%d blocked=%d", []int{1, 2, 4, 8}[rng.Intn(4)],
+			[]int{0, 0, 1, 3}[rng.Intn(4)], before, after, 1+rng.Intn(6), rng.Intn(2), idle, barrier, stop, overlap, linger, big, viadefault, blocked), Kind: "starttls"})
 	}
 	return cs
 }
@@ -139,8 +148,42 @@ func (c13Stream) Impl(c Case) string {
 	rc := &recorder{}
 	big := atoi(p["big"])
 	bigDN := "cn=big" + strings.Repeat("y", big)
+	blk := atoi(p["blocked"])
+	var seenMu sync.Mutex
+	tunnelSeen := map[int]chan struct{}{}
+	seenCh := func(conn int) chan struct{} {
+		seenMu.Lock()
+		defer seenMu.Unlock()
+		if tunnelSeen[conn] == nil {
+			tunnelSeen[conn] = make(chan struct{})
+		}
+		return tunnelSeen[conn]
+	}
+	var failLate func(f string, a ...interface{})
 	h := func(w *gldap.ResponseWriter, r *gldap.Request) {
 		rc.enter(r)
+		if id := r.VerifMessage().GetID(); blk == 1 {
+			ch := seenCh(r.ConnectionID())
+			switch {
+			case id == 6000:
+				// blocks until a request inside the tunnel has reached its handler, and answers nothing (its writer
+				// belongs to the connection as it was before the upgrade)
+				select {
+				case <-ch:
+				case <-time.After(20 * time.Second):
+					failLate("a request inside the tunnel was not dispatched while an earlier handler of its connection was still blocked")
+				}
+				return
+			case id >= 100 && id < 5000:
+				seenMu.Lock()
+				select {
+				case <-ch:
+				default:
+					close(ch)
+				}
+				seenMu.Unlock()
+			}
+		}
 		if big > 0 {
 			// the handler must see the large DN the client sent, whole
 			var dn string
@@ -185,6 +228,17 @@ func (c13Stream) Impl(c Case) string {
 		}
 	}
 	mux := allRoutes(h, stls, nil)
+	if p["viadefault"] == "1" {
+		// no route of its own for StartTLS: one catch-all handler registered with DefaultRoute serves every operation
+		mux, _ = gldap.NewMux()
+		_ = mux.DefaultRoute(func(w *gldap.ResponseWriter, r *gldap.Request) {
+			if r.VerifExtendedName() == string(gldap.ExtendedOperationStartTLS) {
+				stls(w, r)
+				return
+			}
+			h(w, r)
+		})
+	}
 	sut, err := startServer(mux, nil, nil)
 	if err != nil {
 		return "harness-error start: " + err.Error()
@@ -203,6 +257,7 @@ func (c13Stream) Impl(c Case) string {
 		}
 		mu.Unlock()
 	}
+	failLate = fail
 	var wg sync.WaitGroup
 	var stopOnce sync.Once
 	var allUp sync.WaitGroup
@@ -227,6 +282,10 @@ func (c13Stream) Impl(c Case) string {
 					fail("plain request %d before StartTLS not answered correctly: %v", j, err)
 					return
 				}
+			}
+			if blk == 1 {
+				// a search whose handler stays blocked across the upgrade; nothing is read for it
+				_ = cl.send(opFrame("search", 6000))
 			}
 			// the StartTLS request carries the message id the first request inside the tunnel will use again (an id
 			// is free for reuse once its response has arrived)
@@ -365,7 +424,7 @@ func (c13Stream) Impl(c Case) string {
 				if e.msgID >= 5000 {
 					continue
 				}
-				want := int(e.msgID-100) + 2 + pre
+				want := int(e.msgID-100) + 2 + pre + blk
 				if e.msgID < 100 {
 					want = int(e.msgID-50) + 1
 				}
@@ -393,24 +452,32 @@ func (c13Stream) Impl(c Case) string {
 	}
 	if verdict == "ok" {
 		tap.mu.Lock()
-		for id, b := range tap.s2c {
-			// skip the plaintext replies: the pre requests' and the StartTLS reply (one LDAPMessage each)
-			n := 0
-			bad := false
-			for j := 0; j <= pre; j++ {
-				m, ok := frameLen(b[n:])
-				if !ok || n+m > len(b) {
-					fail("session %d: server stream does not start with %d plaintext replies", id, pre+1)
-					bad = true
-					break
+		// "every byte in both directions": what the server sent after its pre + 1 plaintext replies (the pre requests'
+		// and the StartTLS reply, one LDAPMessage each; the blocked request is never answered), and what the client
+		// sent after its pre + blk + 1 plaintext requests
+		for dir, rec := range map[string]map[int][]byte{"server": tap.s2c, "client": tap.c2s} {
+			plain := pre + 1
+			if dir == "client" {
+				plain += blk
+			}
+			for id, b := range rec {
+				n := 0
+				bad := false
+				for j := 0; j < plain; j++ {
+					m, ok := frameLen(b[n:])
+					if !ok || n+m > len(b) {
+						fail("session %d: the %s's stream does not start with %d plaintext messages", id, dir, plain)
+						bad = true
+						break
+					}
+					n += m
 				}
-				n += m
-			}
-			if bad {
-				continue
-			}
-			if ok, where := tlsRecordsOnly(b[n:]); !ok {
-				fail("session %d: bytes sent by the server after the StartTLS reply are not TLS records (%s)", id, where)
+				if bad {
+					continue
+				}
+				if ok, where := tlsRecordsOnly(b[n:]); !ok {
+					fail("session %d: bytes sent by the %s after the StartTLS exchange are not TLS records (%s)", id, dir, where)
+				}
 			}
 		}
 		tap.mu.Unlock()
